@@ -946,7 +946,7 @@ def source_tables_check(ctx, cfg):
         return
     ctx.hit("source-tables-checked")
     compiled = m["tables"]
-    diff = sorted(k for k in set(now) | set(compiled) if now.get(k) != compiled.get(k))
+    diff = sorted(k for k in set(now) | set(compiled) if not same_calls(now.get(k), compiled.get(k)))
     if diff:
         ctx.disagree("C06.source-tables", case, {k: now.get(k) for k in diff}, {k: compiled.get(k) for k in diff})
     src = m["src_cfg"]
@@ -955,6 +955,22 @@ def source_tables_check(ctx, cfg):
         probed["restore_validates"] = src["restore_validates"]  # (only observable through a truncated archive)
     if src != probed and not diff:
         ctx.disagree("C06.source-flags", case, {"probed": probed}, {"from_source": src})
+
+
+def same_calls(t1, t2):
+    """two call tables mean the same: under every valuation of the settings they test, the same calls execute in
+    the same order (so swapping the branches of an `if`, or nesting guards differently, is no difference)"""
+    if t1 is None or t2 is None:
+        return False
+    import itertools
+
+    conds = sorted({c for t in (t1, t2) for _, gs in t for c, _ in gs})
+    for vals in itertools.product((False, True), repeat=len(conds)):
+        env = dict(zip(conds, vals))
+        act = lambda t: [tok for tok, gs in t if all(env[c] == p for c, p in gs)]
+        if act(t1) != act(t2):
+            return False
+    return True
 
 
 def ordered_real(events, zip_present):
